@@ -140,9 +140,8 @@ class Ctx:
     def coq_make(self, targets=()):
         """full .vo build of the hand-written development (no-op when up to date)"""
         with Lock("coqmake"):
-            if not os.path.exists(os.path.join(COQ, "Makefile.coq")) or \
-               os.path.getmtime(os.path.join(COQ, "Makefile.coq")) < os.path.getmtime(os.path.join(COQ, "_CoqProject")):
-                write_coqproject()
+            changed = write_coqproject()
+            if changed or not os.path.exists(os.path.join(COQ, "Makefile.coq")):
                 rc, out = sh(["coq_makefile", "-f", "_CoqProject", "-o", "Makefile.coq"], cwd=COQ)
                 if rc:
                     return False, out
@@ -260,11 +259,15 @@ def shquote(s):
 
 
 def write_coqproject():
+    """(re)writes coq/_CoqProject from the files present; returns True when it changed"""
     files = sorted(f for f in os.listdir(THEORIES) if f.endswith(".v"))
-    with open(os.path.join(COQ, "_CoqProject"), "w") as f:
-        f.write("-Q theories Hermes\n")
-        for fn in files:
-            f.write("theories/%s\n" % fn)
+    txt = "-Q theories Hermes\n" + "".join("theories/%s\n" % fn for fn in files)
+    p = os.path.join(COQ, "_CoqProject")
+    if os.path.exists(p) and open(p).read() == txt:
+        return False
+    with open(p, "w") as f:
+        f.write(txt)
+    return True
 
 
 # ---------------- Coq source emission helpers ----------------
